@@ -628,8 +628,7 @@ func unop(fr *frame, instr *ssa.UnOp, x Val) Val {
 	checkPoison(x)
 	switch instr.Op {
 	case token.ARROW:
-		ch := x.(*Chan)
-		v, ok := chanRecv(fr, ch, instr.X.Type().Underlying().(*types.Chan).Elem())
+		v, ok := chanRecv(fr, asChan17(x), instr.X.Type().Underlying().(*types.Chan).Elem())
 		if instr.CommaOk {
 			return Tuple{v, ok}
 		}
@@ -1546,6 +1545,11 @@ func conv(fr *frame, instr ssa.Instruction, tdst, tsrc types.Type, x Val) Val {
 					}
 					return fromBV(r, dw, dsigned)
 				}
+				if ut_src.Kind() == types.Uintptr && dw >= sw {
+					// uintptr(unsafe.Pointer(p)) carried as the engine pointer itself: an address is
+					// only ever printed (#<error 0xc000...>), give it a stable small number per object
+					return canon(fakeAddr(x), dw, dsigned)
+				}
 			case sInt && isString(ut_dst):
 				return SymStr{b: encodeRune(widenRune(x, sw, ssigned))}.norm()
 			case sInt:
@@ -1704,7 +1708,7 @@ func callBuiltin(caller *frame, pos token.Pos, fn *ssa.Builtin, args []Val) Val 
 			if x == nil {
 				return int64(0)
 			}
-			return int64(len(x.buf))
+			return int64(chanLen17(x))
 		}
 		panic(fmt.Sprintf("len: illegal operand: %T", args[0]))
 	case "cap":
@@ -1863,4 +1867,25 @@ func appendVals(dst, src []Val) []Val {
 		tmp[i] = copyVal(v)
 	}
 	return append(dst, tmp...) // cap exceeded: Go allocates a new array, the old one is untouched
+}
+
+var fakeAddrs = map[any]uint64{}
+
+// fakeAddr numbers the objects whose address a program converts to an integer.
+func fakeAddr(x Val) uint64 {
+	var key any
+	switch p := x.(type) {
+	case *Val:
+		key = p
+	case int64:
+		return uint64(p)
+	default:
+		key = fmt.Sprintf("%T", x)
+	}
+	if a, ok := fakeAddrs[key]; ok {
+		return a
+	}
+	a := 0xc000100000 + uint64(len(fakeAddrs))*64
+	fakeAddrs[key] = a
+	return a
 }
